@@ -554,7 +554,9 @@ class HTMLBinaryInputStream(HTMLUnicodeInputStream):
             # Need to detect UTF-32 before UTF-16
             encoding = bomDict.get(string)         # UTF-32
             seek = 4
-            if not encoding:
+            if not encoding or lookupEncoding(encoding) is None:
+                # There is no UTF-32 decoder: FF FE 00 00 is a UTF-16LE BOM
+                # followed by U+0000, and 00 00 FE FF is no BOM at all
                 encoding = bomDict.get(string[:2])  # UTF-16
                 seek = 2
 
